@@ -153,43 +153,141 @@ func (c *convCtx) conv(rv reflect.Value, t types.Type) Value {
 	return nil
 }
 
+// parseInto parses src natively and installs the file (named filename) in the engine-side FileSet.
+func (ex *Exec) parseInto(fr *Frame, fsetP PtrV, filename, src string) (Value, bool) {
+	tf := ex.tf
+	nfset := token.NewFileSet()
+	f, perr := parser.ParseFile(nfset, filename, src, parser.ParseComments)
+	hadErr := perr != nil
+	if f == nil {
+		return PtrV{}, hadErr
+	}
+	fsT := types.NewPointer(ex.namedType("go/token", "FileSet"))
+	base := ex.toInt(ex.callSSA(fr, ex.methodByName(fsT, "Base"), []Value{fsetP}, nil))
+	shift := tf.BV("bvsub", base, tf.Const(64, 1))
+	tfile := ex.callSSA(fr, ex.methodByName(fsT, "AddFile"), []Value{fsetP, ex.cstr(filename), tf.Const(64, ^uint64(0)), tf.Const(64, uint64(len(src)))}, nil)
+	var lines []int
+	if ntf := nfset.File(token.Pos(1)); ntf != nil {
+		for i := 1; i <= ntf.LineCount(); i++ {
+			lines = append(lines, ntf.Offset(ntf.LineStart(i)))
+		}
+	}
+	ls := ex.makeSlice(types.Typ[types.Int], len(lines), len(lines))
+	for i, l := range lines {
+		ls.arr.v.(*ArrayV).elems[i] = tf.Const(64, uint64(l))
+	}
+	ex.callSSA(fr, ex.methodByName(types.NewPointer(ex.namedType("go/token", "File")), "SetLines"), []Value{tfile, ls}, nil)
+	ctx := &convCtx{ex: ex, memo: map[uintptr]PtrV{}, shift: shift}
+	return ctx.conv(reflect.ValueOf(f), types.NewPointer(ex.namedType("go/ast", "File"))), hadErr
+}
+
+func (ex *Exec) parseError(msg string) Value { return errorIface(ex, ex.cstr(msg)) }
+
 func init() {
 	extraAPI = append(extraAPI, func(ex *Exec) {
 		tf := ex.tf
 		// vfParseInto(fset *token.FileSet, src string) (*ast.File, bool)  -- bool: parser reported errors
 		ex.intr["vf:vfParseInto"] = func(ex *Exec, fr *Frame, a []Value) Value {
-			fsetP := a[0].(PtrV)
-			src := ex.concStr(a[1], "vfParseInto source")
-			nfset := token.NewFileSet()
-			f, perr := parser.ParseFile(nfset, "", src, parser.ParseComments)
-			hadErr := perr != nil
-			if f == nil {
-				return TupleV{PtrV{}, tf.Bool(hadErr)}
-			}
-			// base of the engine-side FileSet: the real (*FileSet).Base
-			baseFn := ex.methodByName(types.NewPointer(ex.namedType("go/token", "FileSet")), "Base")
-			base := ex.toInt(ex.callSSA(fr, baseFn, []Value{fsetP}, nil))
-			shift := tf.BV("bvsub", base, tf.Const(64, 1))
-			// register the file: real AddFile + SetLines on the engine heap
-			addFn := ex.methodByName(types.NewPointer(ex.namedType("go/token", "FileSet")), "AddFile")
-			tfile := ex.callSSA(fr, addFn, []Value{fsetP, ex.cstr(""), tf.Const(64, ^uint64(0)), tf.Const(64, uint64(len(src)))}, nil)
-			var lines []int
-			ntf := nfset.File(token.Pos(1))
-			if ntf != nil {
-				for i := 1; i <= ntf.LineCount(); i++ {
-					lines = append(lines, ntf.Offset(ntf.LineStart(i)))
+			v, bad := ex.parseInto(fr, a[0].(PtrV), "", ex.concStr(a[1], "vfParseInto source"))
+			return TupleV{v, tf.Bool(bad)}
+		}
+		// go/parser.ParseFile(fset, filename, src, mode): src is a concrete string or []byte, or nil and the
+		// file is read from the in-memory file system
+		ex.intr["go/parser.ParseFile"] = func(ex *Exec, fr *Frame, a []Value) Value {
+			filename := ex.concStr(a[1], "ParseFile filename")
+			var src string
+			iv := a[2].(IfaceV)
+			switch {
+			case iv.t == nil:
+				f, ok := ex.fs[filename]
+				if !ok {
+					return TupleV{PtrV{}, ex.parseError("open " + filename + ": no such file or directory")}
+				}
+				src = ex.concStr(f.content, "file content")
+			default:
+				switch x := iv.v.(type) {
+				case *StrV:
+					src = ex.concStr(x, "ParseFile src")
+				case SliceV:
+					src = ex.concStr(ex.bytesToStr(x), "ParseFile src")
+				default:
+					ex.unsupported("parser.ParseFile with a reader source")
 				}
 			}
-			ls := ex.makeSlice(types.Typ[types.Int], len(lines), len(lines))
-			for i, l := range lines {
-				ls.arr.v.(*ArrayV).elems[i] = tf.Const(64, uint64(l))
+			v, bad := ex.parseInto(fr, a[0].(PtrV), filename, src)
+			if bad {
+				return TupleV{v, ex.parseError("syntax errors")}
 			}
-			setFn := ex.methodByName(types.NewPointer(ex.namedType("go/token", "File")), "SetLines")
-			ex.callSSA(fr, setFn, []Value{tfile, ls}, nil)
-			ctx := &convCtx{ex: ex, memo: map[uintptr]PtrV{}, shift: shift}
-			ft := types.NewPointer(ex.namedType("go/ast", "File"))
-			v := ctx.conv(reflect.ValueOf(f), ft)
-			return TupleV{v, tf.Bool(hadErr)}
+			return TupleV{v, IfaceV{}}
+		}
+		// go/parser.ParseDir(fset, dir, filter, mode): the .go files of dir in the in-memory file system
+		ex.intr["go/parser.ParseDir"] = func(ex *Exec, fr *Frame, a []Value) Value {
+			dir := ex.concStr(a[1], "ParseDir dir")
+			var names []string
+			for n := range ex.fs {
+				if len(n) > len(dir)+1 && n[:len(dir)+1] == dir+"/" && len(n) > 3 && n[len(n)-3:] == ".go" {
+					names = append(names, n)
+				}
+			}
+			for i := range names {
+				for j := i + 1; j < len(names); j++ {
+					if names[j] < names[i] {
+						names[i], names[j] = names[j], names[i]
+					}
+				}
+			}
+			mt := types.NewMap(types.Typ[types.String], types.NewPointer(ex.namedType("go/ast", "Package")))
+			ex.mapCount++
+			out := &MapV{id: ex.mapCount, typ: mt}
+			pkgT := ex.namedType("go/ast", "Package")
+			fmT := types.NewMap(types.Typ[types.String], types.NewPointer(ex.namedType("go/ast", "File")))
+			var firstErr Value = IfaceV{}
+			for _, n := range names {
+				fv, bad := ex.parseInto(fr, a[0].(PtrV), n, ex.concStr(ex.fs[n].content, "file content"))
+				if bad && firstErr.(IfaceV).t == nil {
+					firstErr = ex.parseError("syntax errors in " + n)
+				}
+				fp := fv.(PtrV)
+				if fp.obj == nil {
+					continue
+				}
+				// package name of the file
+				nameV, _, _ := ex.fieldByName(IfaceV{t: types.NewPointer(ex.namedType("go/ast", "File")), v: fp}, "Name")
+				pname := ""
+				if ip, ok := nameV.(PtrV); ok && ip.obj != nil {
+					pname = ex.concStr(ex.loadRaw(ip).(*StructV).fields[1], "package name")
+				}
+				var pkgObj *Obj
+				for _, e := range out.entries {
+					if e.key.(*StrV).conc == pname {
+						pkgObj = e.val.(PtrV).obj
+					}
+				}
+				if pkgObj == nil {
+					ex.mapCount++
+					files := &MapV{id: ex.mapCount, typ: fmT}
+					pv := ex.zero(pkgT).(*StructV)
+					st := pkgT.Underlying().(*types.Struct)
+					for i := 0; i < st.NumFields(); i++ {
+						switch st.Field(i).Name() {
+						case "Name":
+							pv.fields[i] = ex.cstr(pname)
+						case "Files":
+							pv.fields[i] = files
+						}
+					}
+					pkgObj = ex.newObj(pv, pkgT, "parsed package")
+					out.entries = append(out.entries, &mapEntry{key: ex.cstr(pname), val: PtrV{obj: pkgObj}})
+				}
+				st := pkgT.Underlying().(*types.Struct)
+				for i := 0; i < st.NumFields(); i++ {
+					if st.Field(i).Name() == "Files" {
+						fm := pkgObj.v.(*StructV).fields[i].(*MapV)
+						fm.entries = append(fm.entries, &mapEntry{key: ex.cstr(n), val: fp})
+					}
+				}
+			}
+			return TupleV{out, firstErr}
 		}
 	})
 	_ = ast.NewIdent
